@@ -118,6 +118,11 @@ type Bin struct {
 // Paren is an explicit redundant pair of parentheses.
 type Paren struct{ X Expr }
 
+// Frozen marks an atom whose text is named by a Forget/Changed call: the printer renders it
+// canonically (no redundant parentheses, canonical literals) so the text the parser records
+// equals CompactText(X).
+type Frozen struct{ X Expr }
+
 func (*Lit) isExpr()    {}
 func (*Path) isExpr()   {}
 func (*Call) isExpr()   {}
@@ -126,6 +131,7 @@ func (*Index) isExpr()  {}
 func (*Not) isExpr()    {}
 func (*Bin) isExpr()    {}
 func (*Paren) isExpr()  {}
+func (*Frozen) isExpr() {}
 
 // Stmt is an action: *Assign or *CallStmt.
 type Stmt interface{ isStmt() }
@@ -229,6 +235,8 @@ func Walk(e Expr, fn func(Expr)) {
 		Walk(x.L, fn)
 		Walk(x.R, fn)
 	case *Paren:
+		Walk(x.X, fn)
+	case *Frozen:
 		Walk(x.X, fn)
 	}
 }
